@@ -13,7 +13,7 @@ import urllib.parse
 
 from .. import tlc, graph, common, servers
 
-SEGS_Q = ["", ".", "..", "a.txt", "sub", "..name", "%2e%2e", "index.html", "x.html", "x", "y", "rootx", "secret.txt", "z", "d2"]
+SEGS_Q = ["", ".", "..", "a.txt", "sub", "..name", "%2e%2e", "index.html", "x.html", "x", "y", "rootx", "secret.txt", "z", "d2", "q.html"]
 SEGS_T = SEGS_Q + ["u_e.txt", "deep", "root"]
 # TLC mangles non-ASCII characters in strings: the model uses the ASCII token, the adapter the real name
 REAL = {"u_e.txt": "\u00e9.txt"}
@@ -23,7 +23,8 @@ def real_name(n):
     return REAL.get(n, n)
 
 FILES = ["a.txt", "..name", "x.html", "x", "y.html", "index.html", "u_e.txt", "sub/index.html", "sub/a.txt", "sub/x.html",
-         "sub/deep/a.txt", "sub/..name", "root/a.txt", "sub.html", "%2e%2e/index.html"]
+         "sub/deep/a.txt", "sub/..name", "root/a.txt", "sub.html", "%2e%2e/index.html",
+         "q.html.html"]     # (no "q.html" beside it: the ".html" fallback is for names that do not already end in ".html")
 # (directories named like the Pages candidates: "z.html" with no "z" beside it, "d2/index.html"; a directory literally named "%2e%2e")
 DIRS = ["sub", "sub/deep", "root", "z.html", "d2", "d2/index.html", "%2e%2e"]
 
